@@ -8,7 +8,7 @@ package utility
 //@ smt (declare-fun encCount ((_ BitVec 64)) Bytes)
 //@ func UInt64ToByte
 //@   option trusted
-//@   ensures bytes(result) == @encCount(i) && fresh(result)
+//@   ensures bytes(result) == @encCount(i) && fresh(result) && len(result) == 8
 //@   modifies nothing
 
 // ---------------------------------------------------------------------------------------------
